@@ -376,6 +376,37 @@ def _bool_flag_defs(body, discr_op):
     return out
 
 
+def merged_bool_source(body, sym, discr_op):
+    """For a switch operand that is (a copy of) an unnamed bool temporary assigned constants of one truth value in some
+    arms and one computed value in exactly one arm (`o.is_some_and(|x| P(x))` after expansion: false when None, P(x) when
+    Some): (block of the computed definition, its expression, the constants' truth value); otherwise None."""
+    p = op_place(discr_op)
+    if p is None or not mir.is_local(p):
+        return None
+    l = p["l"]
+    for _ in range(3):
+        sd = body.single_def(l)
+        if sd and sd[2].get("k") == "use" and op_place(sd[2]["a"]) is not None and mir.is_local(op_place(sd[2]["a"])):
+            l = op_place(sd[2]["a"])["l"]
+        else:
+            break
+    if 1 <= l <= body.arg_count or l in body.names:
+        return None
+    defs = body.defs().get(l, [])
+    if len(defs) < 2:
+        return None
+    consts = [d for d in defs if d[2].get("k") == "use" and const_int(d[2]["a"]) in (0, 1)]
+    comp = [d for d in defs if d not in consts]
+    if len(comp) != 1 or not consts or len({const_int(d[2]["a"]) for d in consts}) != 1 or comp[0][2].get("k") == "partial":
+        return None
+    db, di, rv = comp[0]
+    if rv.get("k") == "call":
+        e = ("call", strip_generics(callee_name(rv["t"])), tuple(sym.operand(a) for a in rv["t"]["args"]))
+    else:
+        e = sym.rvalue(rv)
+    return db, e, bool(const_int(consts[0][2]["a"]))
+
+
 def constraints_for(ix, body, sym, block, _depth=0):
     """Constraints that hold on every path reaching `block`: for each dominating switch of which only some
     arms lead to the block: (text of the switched expression, frozenset of value names, switch block)."""
@@ -431,6 +462,25 @@ def constraints_for(ix, body, sym, block, _depth=0):
                 for c in common or []:
                     if not any(c[0] == o[0] and c[1] == o[1] for o in out):
                         out.append(c)
+                continue
+        # a bool that is a constant in all arms but one: leaving by the other truth value means the computed arm was taken
+        # and its value is that truth value
+        ms = merged_bool_source(body, sym, t["discr"]) if t.get("discr_ty") == "bool" and _depth < 4 else None
+        if ms is not None:
+            want = set()
+            for v in leading:
+                bools = [x for x in (0, 1) if x not in [a[0] for a in t["arms"]]] if v == "otherwise" else [v]
+                want |= {bool(bv) != neg for bv in bools}
+            db, me, cv = ms
+            if want == {not cv}:
+                for c in constraints_for(ix, body, sym, db, _depth + 1):
+                    if not any(c[0] == o[0] and c[1] == o[1] for o in out):
+                        out.append(c)
+                mneg = False
+                while isinstance(me, tuple) and me[0] == "un" and me[1] == "Not":
+                    me = me[2]
+                    mneg = not mneg
+                out.append((mir.expr_str(me), frozenset([(not cv) != mneg]), d, me))
                 continue
         names = None
         ty = discr_type_of_switch(body, d)
